@@ -6,29 +6,30 @@
                    services with their status on the receiving interface, the rename map of that
                    interface's registry, the interface, the decoded query, the source address/port.
    spec k        : the specification written from the property text (Model/ResponderSpec.v);
-                   `text_quirks` = the text itself, `code_quirks` = the text with the six deviations
-                   of the code switched on.
+                   `text_quirks` = the text itself, `code_quirks` = the text with the two deviations
+                   of the code that remain (subtype answer, transport family) switched on; four
+                   more were repaired in /repo (meta-query duplicates, SRV target and lookup
+                   after a rename, legacy id) and are now plain theorems / passing examples.
    reaction_equiv: same destination, interface, id, flags, echoed questions; answer and
                    additional sections equal as multisets (Permutation) - so "nothing else" is
                    part of every statement.
    chk_C06       : the executable checker (also the monitor on the implementation's packets). *)
-From Coq Require Import List NArith Bool Permutation.
+From Coq Require Import List NArith Bool Permutation String.
 From Mdns Require Import Res Bytes Rec Intf Responder ResponderSpec ResponderProofs ResponderWitness.
 Import ListNotations.
 Open Scope N_scope.
 
 (* What the code does, for ALL inputs: the response (or silence) is the one the text prescribes
-   with the six named deviations applied - every question list, known-answer list, service table
+   with the two named deviations applied - every question list, known-answer list, service table
    (any iteration order), rename map, interface, source address and port.
    Hypothesis wf_input: services as the public API creates them (TTL 120/4500, priority = weight
-   = 0), my_services keyed by the lower-cased name, no two services resolving to one key. *)
+   = 0), no two services holding (after renames, case-insensitively) the same instance name. *)
 Theorem C06_model_is_spec_with_deviations : forall inp,
   wf_input inp = true -> reaction_equiv (handle_query inp) (spec code_quirks inp).
 Proof. exact model_is_spec_code. Qed.
 
-(* Outside the deviation classes (`clean`: no two announced services of one type under a meta
-   query, no subtype question, on-link addresses only of the transport's family, no renamed host,
-   renamed instance names reachable through the lower-cased key, legacy queries with id 0) the
+(* Outside the deviation classes (`clean`: no PTR question for the subtype of an announced
+   service, on-link addresses of announced services only of the transport's family) the
    specification with deviations IS the text. *)
 Theorem C06_deviations_vanish_when_clean : forall inp,
   clean inp = true -> spec code_quirks inp = spec text_quirks inp.
@@ -38,7 +39,10 @@ Proof. exact spec_code_is_text_when_clean. Qed.
    services with an address on the link matching a question (type / subtype / meta PTR; SRV, TXT,
    ANY on the instance name; A, AAAA, ANY on the host name; names case-insensitive), TTL 120 /
    4500, cache-flush on SRV/TXT/address, only on-link addresses, PTR answers with SRV/TXT/address
-   additionals, known answers with TTL > half suppressed, and nothing else. *)
+   additionals, the SRV answer to an SRV question with its address additionals, known answers
+   with TTL > half suppressed (the cache-flush bit is not compared), a type listed once under
+   the meta query however many services have it, names as held after conflict renames, and
+   nothing else. *)
 Theorem C06_response_characterised : forall inp,
   wf_input inp = true -> clean inp = true ->
   reaction_equiv (handle_query inp) (spec text_quirks inp).
@@ -55,14 +59,14 @@ Theorem C06_checker_explains_model : forall inp,
 Proof. exact explained_by_code. Qed.
 
 (* legacy_unicast: a query from a port other than 5353 is answered (if at all) by ONE packet sent
-   by unicast to the sender, questions echoed, every cache-flush bit cleared. The id it carries is
-   0 - NOT the query id the text demands (C06_legacy_id_refuted). *)
+   by unicast to the sender, with the query id and the questions echoed and every cache-flush bit
+   cleared. *)
 Theorem C06_legacy_unicast : forall inp p,
   wf_input inp = true -> handle_query inp = Some p -> h_src_port inp <> 5353 ->
   p_dest p = DUnicast (h_src_ip inp) (h_src_port inp) /\
   p_questions p = map (fun q => (q_name q, q_type q)) (m_questions (h_msg inp)) /\
   Forall (fun r => r_flush r = false) (p_answers p ++ p_additionals p) /\
-  p_id p = 0.
+  p_id p = m_id (h_msg inp).
 Proof. exact legacy_unicast. Qed.
 
 (* from port 5353: multicast on the family the query came over, no questions, id 0 *)
@@ -88,42 +92,54 @@ Theorem C06_silent_without_address : forall inp,
 Proof. exact silent_without_address. Qed.
 
 (* ---- the full statement "forall inp, wf_input inp = true -> chk_C06 inp (handle_query inp) = true"
-        is FALSE of the faithful model; one witness per deviation (refutes n w: w is well-formed,
-        the checker rejects the model's reaction, and the reaction is the text with deviation n
-        only).  Findings: known/C06.json; replays: corpus/C06.cases. ---- *)
+        is FALSE of the faithful model; one witness per remaining deviation (refutes n w: w is
+        well-formed, the checker rejects the model's reaction, and the reaction is the text with
+        deviation n only).  Findings: known/C06.json; replays: corpus/C06.cases. ---- *)
 
-Theorem C06_meta_query_duplicates_refuted : refutes 1 w_meta_dup = true.
-Proof. exact w_meta_dup_ok. Qed.
-
-Theorem C06_subtype_answer_refuted : refutes 2 w_sub_answer = true.
+Theorem C06_subtype_answer_refuted : refutes 1 w_sub_answer = true.
 Proof. exact w_sub_answer_ok. Qed.
 
-Theorem C06_transport_family_additionals_refuted : refutes 3 w_family = true.
+Theorem C06_transport_family_additionals_refuted : refutes 2 w_family = true.
 Proof. exact w_family_ok. Qed.
 
 Theorem C06_transport_family_silence_refuted :
-  refutes 3 w_family_silent = true /\ handle_query w_family_silent = None.
+  refutes 2 w_family_silent = true /\ handle_query w_family_silent = None.
 Proof. exact w_family_silent_ok. Qed.
 
-Theorem C06_srv_target_after_rename_refuted : refutes 4 w_srv_old_host = true.
-Proof. exact w_srv_old_host_ok. Qed.
+(* ---- the witnesses of the deviations repaired since the first build are accepted now ---- *)
 
-Theorem C06_renamed_mixed_case_instance_refuted :
-  refutes 5 w_lookup_lower = true /\ handle_query w_lookup_lower = None.
-Proof. exact w_lookup_lower_ok. Qed.
+(* two services of one type, meta query: the type is listed once *)
+Example C06_meta_query_lists_type_once : passes w_meta_dup = true /\
+  match handle_query w_meta_dup with Some p => List.length (p_answers p) = 1%nat | None => False end.
+Proof. exact w_meta_dup_passes. Qed.
 
-Theorem C06_lost_name_still_answered_refuted : refutes 5 w_lookup_lower_old = true.
-Proof. exact w_lookup_lower_old_ok. Qed.
+(* host renamed by a conflict: the direct SRV answer points to the new host name *)
+Example C06_srv_target_after_rename : passes w_srv_old_host = true /\
+  match handle_query w_srv_old_host with
+  | Some p => map r_data (p_answers p) = [RSrv 0 0 8080 (b "MyHost-2.local."%string)]
+  | None => False end.
+Proof. exact w_srv_old_host_passes. Qed.
 
-Theorem C06_legacy_id_refuted : refutes 6 w_legacy_id = true.
-Proof. exact w_legacy_id_ok. Qed.
+(* mixed-case instance renamed by a conflict: the new name is answered, the lost one is not *)
+Example C06_renamed_mixed_case_instance_answered :
+  passes w_lookup_lower = true /\ handle_query w_lookup_lower <> None.
+Proof. exact w_lookup_lower_passes. Qed.
+
+Example C06_lost_name_not_answered :
+  passes w_lookup_lower_old = true /\ handle_query w_lookup_lower_old = None.
+Proof. exact w_lookup_lower_old_passes. Qed.
+
+(* legacy unicast: the id 0x1234 of the query comes back *)
+Example C06_legacy_id_echoed : passes w_legacy_id = true /\
+  match handle_query w_legacy_id with Some p => p_id p = 4660 | None => False end.
+Proof. exact w_legacy_id_passes. Qed.
 
 (* Non-vacuity: a well-formed input outside every deviation class that is answered with six
    answer and three additional records. *)
 Example C06_clean_example :
   wf_input w_clean = true /\ clean w_clean = true /\
   match handle_query w_clean with
-  | Some p => (length (p_answers p), length (p_additionals p)) = (6%nat, 3%nat)
+  | Some p => (List.length (p_answers p), List.length (p_additionals p)) = (6%nat, 3%nat)
   | None => False
   end.
 Proof. exact w_clean_ok. Qed.
@@ -137,12 +153,12 @@ Print Assumptions C06_legacy_unicast.
 Print Assumptions C06_multicast_reply.
 Print Assumptions C06_silent_for_unknown.
 Print Assumptions C06_silent_without_address.
-Print Assumptions C06_meta_query_duplicates_refuted.
 Print Assumptions C06_subtype_answer_refuted.
 Print Assumptions C06_transport_family_additionals_refuted.
 Print Assumptions C06_transport_family_silence_refuted.
-Print Assumptions C06_srv_target_after_rename_refuted.
-Print Assumptions C06_renamed_mixed_case_instance_refuted.
-Print Assumptions C06_lost_name_still_answered_refuted.
-Print Assumptions C06_legacy_id_refuted.
+Print Assumptions C06_meta_query_lists_type_once.
+Print Assumptions C06_srv_target_after_rename.
+Print Assumptions C06_renamed_mixed_case_instance_answered.
+Print Assumptions C06_lost_name_not_answered.
+Print Assumptions C06_legacy_id_echoed.
 Print Assumptions C06_clean_example.
